@@ -25,6 +25,7 @@
 //	s<elems>       Set(slice), then the caller's slice is overwritten with -1.-1 (aliasing poison)
 //	o<dir>         Reorder
 //	c l e          Clear, Len -> n<k>, IsEmpty -> b0|b1
+//	U0 U1          Update(nil) (no callback any more), Update(callback)
 //	E<k>           Each, the callback answering false at its k-th call (0 = never) -> [elems]
 //
 // After the result every op prints '@' + the Update-callback calls it made (<elem>:<index>,…) and
@@ -264,6 +265,20 @@ func (s *session) do(op string) string {
 			return "?"
 		}
 		return "b" + tr.B(s.q.IsEmpty())
+	case 'U':
+		switch arg {
+		case "0":
+			if s.q.Update(nil) != s.q {
+				return "?"
+			}
+		case "1":
+			if s.q.Update(s.cb) != s.q {
+				return "?"
+			}
+		default:
+			return "?"
+		}
+		return "u"
 	case 'E':
 		k, ok := parseInt(arg)
 		if !ok || k < 0 {
@@ -468,7 +483,7 @@ func (h *hist) held() []E {
 func (h *hist) phase() {
 	r := h.g.R
 	n := h.sh.q.Len()
-	switch r.Intn(24) {
+	switch r.Intn(25) {
 	case 0: // ascending run
 		k := r.Range(1, 30)
 		base := h.key()
@@ -580,6 +595,24 @@ func (h *hist) phase() {
 				h.drain()
 			}
 		}
+	case 24: // the callback removed for a while, then installed again
+		if r.Chance(1, 2) {
+			h.tags["update-nil"] = true
+			h.op("U0")
+			for i, k := 0, r.Range(1, 6); i < k; i++ {
+				switch r.Intn(3) {
+				case 0:
+					h.add(h.key())
+				case 1:
+					h.op("p")
+				default:
+					if m := h.sh.q.Len(); m > 0 {
+						h.op("r" + strconv.Itoa(r.Intn(m)))
+					}
+				}
+			}
+			h.op("U1")
+		}
 	case 21: // add then immediately remove through the callback position
 		e := h.fresh(h.key())
 		h.op("a" + e.String())
@@ -620,7 +653,7 @@ func permutations(n int, f func(p []int)) {
 }
 
 func main() {
-	tr.Main("heapq histories built in phases against a shadow queue (ascending, descending, zig-zag and random insertion runs reaching 4-6 heap levels, interior Remove by index and by reported position followed by full drains, Reorder and Set mid-life, NewWithData adoption, Clear/New, negative and out-of-range Remove/Peek, Front/Pop on empty, Each with early stop; key ranges from 3 (many duplicates) to 1000; eight comparison functions at New/NewWithData/Reorder/Sort: by key in both directions, 3*(a-b) and 7*(b-a), key/4 in both directions (coarse), constant 0, by payload; Adds and Removes are tagged by the trigger conditions of findings F1/F2; C05 also repeats whole elements, C06 keeps payloads distinct); exhaustive small scopes: every insertion order of 1..5 then drain, every heap-ordered array of 5..7 (thorough 5..9) distinct keys through Set then Remove(i) for every i then drain, every permutation of 1..5 (thorough 1..6) through Set then Remove(i) then drain, every permutation of 1..5 through NewWithData in both directions and under the six other comparison functions with a Reorder to a coarse one; every heap-ordered array of 3..7 keys through Set then Add of every rank then drain; heapq.Sort on random slices of length 0..40 in both directions. Non-trivial: the history held at least 8 elements at some point, or a Sort of at least 2 elements.",
+	tr.Main("heapq histories built in phases against a shadow queue (ascending, descending, zig-zag and random insertion runs reaching 4-6 heap levels, interior Remove by index and by reported position followed by full drains, Reorder and Set mid-life, NewWithData adoption, Clear/New, Update(nil) for a while and Update(callback) again, negative and out-of-range Remove/Peek, Front/Pop on empty, Each with early stop; key ranges from 3 (many duplicates) to 1000; eight comparison functions at New/NewWithData/Reorder/Sort: by key in both directions, 3*(a-b) and 7*(b-a), key/4 in both directions (coarse), constant 0, by payload; Adds and Removes are tagged by the trigger conditions of findings F1/F2; C05 also repeats whole elements, C06 keeps payloads distinct); exhaustive small scopes: every insertion order of 1..5 then drain, every heap-ordered array of 5..7 (thorough 5..9) distinct keys through Set then Remove(i) for every i then drain, every permutation of 1..5 (thorough 1..6) through Set then Remove(i) then drain, every permutation of 1..5 through NewWithData in both directions and under the six other comparison functions with a Reorder to a coarse one; every heap-ordered array of 3..7 keys through Set then Add of every rank then drain; heapq.Sort on random slices of length 0..40 in both directions. Non-trivial: the history held at least 8 elements at some point, or a Sort of at least 2 elements.",
 		exec, func(g *tr.G) {
 			dup := g.Prop != "C06"
 			// exhaustive small scopes
